@@ -7,6 +7,9 @@ from batchie import retrospective as R
 from harness.util import outcome, bits, Interner
 
 TREAT = ["ctl", "A", "B", "c", "Δ"]          # token 0 = control
+# a treatment token is a (drug name, dose) condition: tokens 5 and 6 are further doses of the drugs of tokens 1 and 2
+TOK = {0: ("ctl", 0.0), 1: ("A", 1.0), 2: ("B", 1.0), 3: ("c", 1.0), 4: ("Δ", 1.0), 5: ("A", 5.0), 6: ("B", 25.0)}
+TOK_OF = {(n_, bits(d_)): t_ for t_, (n_, d_) in TOK.items()}
 
 
 class RScreen:
@@ -16,11 +19,13 @@ class RScreen:
         """rows: (sample idx, (t1, t2), plate idx, observed)"""
         self.rows = rows
         n = len(rows)
-        self.tn = np.array([[TREAT[t] for t in r[1]] for r in rows], dtype=str)
-        self.td = np.array([[0.0 if t == 0 else 1.0 for t in r[1]] for r in rows], dtype=float)
+        self.tn = np.array([[TOK[t][0] for t in r[1]] for r in rows], dtype=str)
+        self.td = np.array([[TOK[t][1] for t in r[1]] for r in rows], dtype=float)
         self.sn = np.array(["smp%d" % r[0] for r in rows], dtype=str)
         # (observed plates carry names longer than any label a generator makes up: they must come through untouched)
-        self.pn = np.array([("in_plate_%d" if not r[3] else "plate_observed_before_the_simulation_%d") % r[2] for r in rows], dtype=str)
+        # ... and sort before or after the unobserved ones, depending on the screen
+        pre = "a_" if (n + sum(r[2] for r in rows)) % 2 == 0 else ""
+        self.pn = np.array([("in_plate_%d" if not r[3] else pre + "plate_observed_before_the_simulation_%d") % r[2] for r in rows], dtype=str)
         self.obs = np.array([0.11 + 0.013 * i for i in range(n)])
         self.mask = np.array([bool(r[3]) for r in rows])
         self.key2id = {}
@@ -44,7 +49,7 @@ class RScreen:
                 rid = dup
             smp = str(s.sample_names[i])
             out.append({"id": rid, "s": int(smp[3:]) if smp.startswith("smp") and smp[3:].isdigit() else 99,
-                        "ts": [TREAT.index(str(x)) if str(x) in TREAT else 98 for x in s.treatment_names[i]],
+                        "ts": [TOK_OF.get((str(x), bits(float(d))), 98) for x, d in zip(s.treatment_names[i], s.treatment_doses[i])],
                         "pl": self.ptok(str(s.plate_names[i])), "obs": bool(s.observation_mask[i])})
         return out
 
@@ -63,6 +68,8 @@ def random_rscreen(rnd, n, nsamp, nplates, p_obs=0.3, single=0.25, one_sample_pe
             t = (0, 0)
         else:
             t = (rnd.randint(1, 4), rnd.randint(1, 4))
+        if rnd.random() < 0.25:
+            t = tuple(rnd.choice([x, {1: 5, 2: 6}.get(x, x)]) for x in t)          # a dose series of drug A / B
         if arity == 1:
             t = t[:1]
         elif arity > 2:
@@ -138,6 +145,15 @@ def make_cases(ctx, rnd, tlc_inputs):
                   ("ensemble", ssp, (rnd.randint(1, 5), rnd.randint(1, 2), rnd.randint(1, 2))),
                   ("holdout", big, rnd.choice([(0, 1), (1, 1), (1, 2), (1, 4), (3, 4), (1, 8), (4, 5), (9, 10), (1, 3), (7, 10), (5, 6)])),
                   ("random_holdout", big, rnd.choice([(0, 1), (1, 1), (1, 2), (1, 4), (3, 8), (4, 5), (1, 3), (9, 10)]))]
+    # plates that hold more than one sample (also with the same sample in the first and the last row): a merge smoother refuses them
+    # or leaves them alone, it never merges them with anything
+    for mixed_rows in ([(0, (1, 2), 0, False), (1, (1, 2), 0, False), (0, (3, 4), 0, False), (0, (1, 3), 1, False), (0, (2, 3), 2, False)],
+                       [(1, (1, 2), 0, False), (0, (1, 2), 0, False), (1, (3, 4), 1, False), (1, (1, 3), 2, False)]):
+        for prm in (2, 4, 9):
+            cases += [("mergemin", RScreen(mixed_rows), (prm,)), ("mergetb", RScreen(mixed_rows), (1 + prm % 2,))]
+    for _ in range(4 if ctx.quick else 40):
+        mx = random_rscreen(rnd, rnd.randint(3, 10), 2, rnd.randint(2, 4), p_obs=0.0, single=0.0)
+        cases += [("mergemin", mx, (rnd.randint(1, 8),)), ("mergetb", mx, (rnd.randint(1, 2),))]
     # enough experiments for more than ten generated plates (two-digit plate labels)
     many = RScreen([(smp, pair, 0, False) for smp in range(4) for pair in ((1, 2), (3, 4), (1, 3), (2, 4), (1, 4))] + [(0, (1, 0), 0, False), (3, (0, 4), 0, False)])
     cases += [("pair", many, (1, 0)), ("pair", many, (2, 1)), ("seg", many, (1,)), ("seg", many, (2,)), ("perm", many, (0,))]
